@@ -242,7 +242,7 @@ def t_time_machine(E):
     x = E.opaque("x")
     tm = E.call(TT + ":time_machine", src)
     out = I.call(tm, [x], {})
-    E.prove("C31.time_machine.returns_the_recording_of_the_instrumented_source", E.eq(out, result) and E.eq(tuple(seen["args"]), (x,)))
+    E.prove("C31.time_machine.returns_the_recording_of_the_instrumented_source", E.And(E.eq(out, result), E.eq(tuple(seen["args"]), (x,))))
     I.call(seen["source"], [x], {})
     E.prove("C31.time_machine.source_is_recorded_as_enter_and_its_result_tagged_exit",
             len(recs) == 2 and recs[0][1] == "_enter" and recs[1][1] == "exit" and
